@@ -22,17 +22,19 @@ const entsCoq = `[
                       {| rs_name := "FindUserByEmail"; rs_keys := [{| kf_path := ["email"]; kf_type := KString |}] |}] |};
   {| en_name := "Org"; en_multi := false; en_requires := [];
      en_resolvers := [{| rs_name := "FindOrgByID"; rs_keys := [{| kf_path := ["id"]; kf_type := KId |}] |}] |};
-  {| en_name := "Product"; en_multi := false; en_requires := ["weight"];
+  {| en_name := "Product"; en_multi := false; en_requires := [["weight"]];
      en_resolvers := [{| rs_name := "FindProductByUpc"; rs_keys := [{| kf_path := ["upc"]; kf_type := KString |}] |};
                       {| rs_name := "FindProductBySkuAndOrgID"; rs_keys := [{| kf_path := ["sku"]; kf_type := KString |}; {| kf_path := ["org"; "id"]; kf_type := KId |}] |}] |};
-  {| en_name := "Item"; en_multi := true; en_requires := ["size"];
+  {| en_name := "Item"; en_multi := true; en_requires := [["size"]];
      en_resolvers := [{| rs_name := "FindManyItemByIDs"; rs_keys := [{| kf_path := ["id"]; kf_type := KId |}] |}] |};
   {| en_name := "Pair"; en_multi := true; en_requires := [];
      en_resolvers := [{| rs_name := "FindManyPairByAs"; rs_keys := [{| kf_path := ["a"]; kf_type := KId |}] |};
-                      {| rs_name := "FindManyPairByBs"; rs_keys := [{| kf_path := ["b"]; kf_type := KId |}] |}] |}
+                      {| rs_name := "FindManyPairByBs"; rs_keys := [{| kf_path := ["b"]; kf_type := KId |}] |}] |};
+  {| en_name := "Review"; en_multi := false; en_requires := [["author"; "reputation"]];
+     en_resolvers := [{| rs_name := "FindReviewByAuthorID"; rs_keys := [{| kf_path := ["author"; "id"]; kf_type := KId |}] |}] |}
 ]`
 
-const Query = `query($reps: [_Any!]!) { _entities(representations: $reps) { __typename ... on User { echo } ... on Org { echo } ... on Product { echo weight } ... on Item { echo size } ... on Pair { echo } } }`
+const Query = `query($reps: [_Any!]!) { _entities(representations: $reps) { __typename ... on User { echo } ... on Org { echo } ... on Product { echo weight } ... on Item { echo size } ... on Pair { echo } ... on Review { echo author { reputation } } } }`
 
 // ---- representation generator ----------------------------------------------------------------------------
 
@@ -147,8 +149,24 @@ func genRep(r *gen.Rand, wild int) map[string]any {
 			m["a"] = kv()
 		}
 	case t < 19:
-		m["__typename"] = "Ghost"
-		m["id"] = kv()
+		if r.Bool() {
+			m["__typename"] = "Ghost"
+			m["id"] = kv()
+			break
+		}
+		// a nested key and a @requires into a sibling sub-field of the same object
+		m["__typename"] = "Review"
+		switch r.Intn(8) {
+		case 0:
+			m["author"] = "not-a-map"
+		case 1:
+			m["author"] = nil
+		case 2: // no author at all
+		default:
+			a := map[string]any{"id": kv()}
+			reqVal(r, a, "reputation")
+			m["author"] = a
+		}
 	default:
 		switch r.Intn(3) {
 		case 0: // missing
@@ -169,7 +187,7 @@ func candidateEchoes() []string {
 	for _, v := range vals {
 		q := `"` + v + `"`
 		out = append(out, "FindUserByID("+q+")", "FindUserByEmail("+q+")", "FindOrgByID("+q+")", "FindProductByUpc("+q+")",
-			"FindManyItemByIDs{"+q+"}", "FindManyPairByAs{"+q+"}", "FindManyPairByBs{"+q+"}")
+			"FindManyItemByIDs{"+q+"}", "FindManyPairByAs{"+q+"}", "FindManyPairByBs{"+q+"}", "FindReviewByAuthorID("+q+")")
 		for _, w := range strPool {
 			out = append(out, "FindProductBySkuAndOrgID("+q+`,"`+w+`")`)
 		}
@@ -292,6 +310,9 @@ type entJSON struct {
 	Echo     *string      `json:"echo"`
 	Weight   *json.Number `json:"weight"`
 	Size     *json.Number `json:"size"`
+	Author   *struct {
+		Reputation *json.Number `json:"reputation"`
+	} `json:"author"`
 }
 
 func elemsCoq(raw json.RawMessage) (string, error) {
@@ -329,6 +350,12 @@ func elemsCoq(raw json.RawMessage) (string, error) {
 			reqs = append(reqs, "("+gen.Str("weight")+", "+num(x.Weight)+")")
 		case "Item":
 			reqs = append(reqs, "("+gen.Str("size")+", "+num(x.Size)+")")
+		case "Review":
+			var rep *json.Number
+			if x.Author != nil {
+				rep = x.Author.Reputation
+			}
+			reqs = append(reqs, "("+gen.Str("author.reputation")+", "+num(rep)+")")
 		}
 		items = append(items, fmt.Sprintf("(ElEntity %s %s %s)", gen.Str(x.Typename), gen.Str(echo), gen.List(reqs)))
 	}
@@ -415,6 +442,11 @@ func Run(c *gen.Ctx) error {
 			map[string]xeng.FieldPlan{`FindUserByID("2")`: {O: "panic", Tag: "p"}}},
 		{[]map[string]any{{"__typename": "Product", "sku": "1", "org": "not-a-map"}, {"__typename": "Product", "upc": "2"}, {"__typename": "Ghost", "id": "1"}, {"id": "1"}}, map[string]xeng.FieldPlan{`FindProductByUpc("2")`: {O: "null"}}},
 		{[]map[string]any{{"__typename": "Item", "id": map[string]any{"x": "y"}}, {"__typename": "Item", "id": "1"}}, nil},
+		// a nested key with a @requires into a sibling sub-field: populated, absent, the object missing / no map
+		{[]map[string]any{{"__typename": "Review", "author": map[string]any{"id": "1", "reputation": json.Number("11")}}, {"__typename": "User", "id": "1"},
+			{"__typename": "Review", "author": map[string]any{"id": "2"}}, {"__typename": "Review", "author": map[string]any{"id": "3", "reputation": "heavy"}}}, nil},
+		{[]map[string]any{{"__typename": "Review", "author": "not-a-map"}, {"__typename": "Review"}, {"__typename": "Review", "author": map[string]any{"id": "1", "reputation": json.Number("4")}}},
+			map[string]xeng.FieldPlan{`FindReviewByAuthorID("1")`: {O: "null"}}},
 	}
 	run := func(b built, sess *[]xeng.Case, keep *[]caseDescr, reps []map[string]any, o map[string]xeng.FieldPlan) {
 		if o == nil {
